@@ -875,7 +875,7 @@ func (g *Gen) MutateWPlus(b *Bundle) WPlusInfo {
 			used[fmt.Sprint(pick)] = true
 			holders = [][]string{pick}
 		}
-		switch k := g.r.Intn(11); k {
+		switch k := g.r.Intn(12); k {
 		case 0, 1: // pointer to an arbitrary schema position (operations, nested inline schemas)
 			pos := schemaPositions(root)
 			if len(holders) == 0 || len(pos) == 0 {
@@ -1027,6 +1027,39 @@ func (g *Gen) MutateWPlus(b *Bundle) WPlusInfo {
 			root.Get(holders[0]).At["$ref"] = []string{remote[0], "definitions", ph}
 			info.Unresolvable = true
 			info.Kinds = append(info.Kinds, "dangling-case-variant-of-imported")
+		case 11: // an imported definition refers back to a definition of the root that does not exist (back reference + dangling)
+			if len(holders) == 0 {
+				continue
+			}
+			for _, id := range sortedKeys(b.Docs) {
+				if id == "root" {
+					continue
+				}
+				d := b.Docs[id].Ch["definitions"]
+				if d == nil || len(d.Ch) == 0 {
+					continue
+				}
+				names := sortedKeys(d.Ch)
+				dn := names[g.r.Intn(len(names))]
+				body := leaf("object")
+				ps := NewNode()
+				ps.Ch["plain"] = leaf("string")
+				ghost := "doesNotExist"
+				if g.r.Intn(2) == 0 {
+					ps.Ch["back"] = refNode("root", "definitions", ghost)
+				} else {
+					arr := leaf("array")
+					arr.Ch["items"] = refNode("root", "definitions", ghost)
+					ps.Ch["back"] = arr
+				}
+				body.Ch["properties"] = ps
+				d.Ch[dn] = body
+				// the definition is certainly reached: an operation of the root refers to it
+				root.Get(holders[0]).At["$ref"] = []string{id, "definitions", dn}
+				info.Unresolvable = true
+				info.Kinds = append(info.Kinds, "dangling-back-reference")
+				break
+			}
 		case 7: // schemas recursive only through items / additionalProperties
 			nm := g.newName()
 			g.defs["root"] = append(g.defs["root"], nm)
